@@ -52,6 +52,12 @@ def do_op(f, op):
     elif k == "append":
         with f.openbin(op[1], "a") as h:
             h.write(bytes.fromhex(op[2]))
+    elif k == "rplus":           # update handles: they read AND write
+        with f.openbin(op[1], "r+") as h:
+            h.write(bytes.fromhex(op[2]))
+    elif k == "wplus":
+        with f.openbin(op[1], "w+") as h:
+            h.write(bytes.fromhex(op[2]))
     elif k == "remove":
         f.remove(op[1])
     elif k == "removedir":
@@ -192,7 +198,7 @@ def run(ctx):
     rng = ctx.rng
     for ft in ((12, 32) if ctx.tier == "quick" else (12, 16, 32)):
         img, meta = C13.base_image(rng, ft)
-        for pi in range(ctx.scale(6, 24)):
+        for pi in range(ctx.scale(7, 24)):
             if ctx.time_left() < 15:
                 break
             progs = writer_progs(rng, rng.choice([2, 2, 3]))
@@ -215,12 +221,15 @@ def run(ctx):
             if pi == 5:      # makedirs — its look-ups run under the base-class lock only — into a directory nobody has looked into yet, against a file
                 # created in that directory (C19-m9: the first look parsed the directory BEFORE taking the filesystem lock and stored the stale list)
                 progs = [[("makedirs", "/E/sub five/deeper")], [("write", "/E/W5.BIN", (b"I" * 700).hex())]]
+            if pi == 6:      # the same through UPDATE handles (r+ overwrites and grows a file that owns clusters, w+ writes a new one): a handle that can
+                # also read is a writer all the same (C19-m10: handles whose mode can read took a private lock "so that readers do not queue")
+                progs = [[("rplus", "/A.TXT", (b"J" * 1500).hex())], [("wplus", "/E/W6.BIN", (b"K" * 1500).hex())]]
             seq = sequential_trees(img, progs)
             rep0 = dict(volume=meta, programs=progs)
             sc = one_schedule(ctx, img, meta, progs, seq, S.preempt_policy({}), False, label, dict(rep0, preempt={}))
             n = sc.step
             pts = list(range(1, n + 1))
-            cap = ctx.scale(60 if pi not in (2, 3, 4, 5) else 700, 400 if pi not in (2, 3, 4, 5) else 3000)     # the handle-write / namespace-operation program: every single pre-emption point
+            cap = ctx.scale(60 if pi not in (2, 3, 4, 5, 6) else 700, 400 if pi not in (2, 3, 4, 5, 6) else 3000)     # the handle-write / namespace-operation program: every single pre-emption point
             if len(pts) > cap:
                 pts = sorted(rng.sample(pts, cap))
             before = len(ctx.violations)
@@ -229,7 +238,7 @@ def run(ctx):
                 if len(ctx.violations) > before + 2:
                     break
             # one pre-emption at distinct source lines of the shared in-memory tree (see C18), for the two fixed programs; thorough: all programs
-            if pi in (0, 1, 2, 3, 4, 5) or ctx.tier == "thorough":
+            if pi in (0, 1, 2, 3, 4, 5, 6) or ctx.tier == "thorough":
                 scb = S.Sched(len(progs), S.preempt_policy({}))
                 scb.record_kinds = True
                 fb, _ = mount_rw(img, scb)
@@ -237,11 +246,11 @@ def run(ctx):
                     do_op(fb, op)
                 S.run_threads(scb, [lambda p=p: do_ops(fb, p) for p in progs], pyfat_dir=PYFAT_DIR, line_mode=True, timeout=60)
                 for t in range(len(progs)):
-                    every = pi in (2, 3, 4) and ctx.tier == "thorough"      # every distinct line, not only the tree module's
+                    every = pi in (2, 3, 4, 6) and ctx.tier == "thorough"      # every distinct line, not only the tree module's
                     # the FAT in memory is shared state like the tree: the lines of the functions that copy, change and swap it (C19-m5)
-                    fat_funcs = ("free_cluster_chain", "allocate_bytes", "flush_fat", "_remove", "removetree", "write_data_to_cluster") if pi in (3, 4) else ()
+                    fat_funcs = ("free_cluster_chain", "allocate_bytes", "flush_fat", "_remove", "removetree", "write_data_to_cluster") if pi in (3, 4, 6) else ()
                     lines = [k for k in scb.kinds.get(t, {}) if k.startswith("line:") and (every or k.split(":")[1] in C18.TREE_FUNCS or k.split(":")[1] in fat_funcs)]
-                    cap_l = ctx.scale(40 if not every and pi not in (3, 4) else 160, 400 if not every else 2000)
+                    cap_l = ctx.scale(40 if not every and pi not in (3, 4, 6) else 160, 400 if not every else 2000)
                     if len(lines) > cap_l:
                         lines = rng.sample(lines, cap_l)
                     for k in lines:
